@@ -158,6 +158,21 @@ Theorem C04_failure_shapes : forall bucket nlen H st0 sched i t,
 Proof. exact failure_shapes_reachable. Qed.
 Print Assumptions C04_failure_shapes.
 
+(* the allocation limit is never beyond the end of the file: at every instant
+   of every schedule (so at every kill point), and the only step that moves
+   the limit moves it to an offset the file had ALREADY reached before that
+   step (the file is extended first, the limit published by CAS afterwards).
+   The runner checks it on the implementation after every call of every
+   process, with kills at every call and failing writes (suite create,
+   scenarios grow / grow-fault, class limit-beyond-file). *)
+Theorem C04_limit_within_file : forall bucket nlen H st0 sched i, init_ok bucket nlen H st0 ->
+  let st := run bucket nlen H sched st0 in
+  f_limit (fst st) <= f_size (fst st) /\
+  (f_limit (fst (step bucket nlen H st i)) <> f_limit (fst st) ->
+   f_limit (fst (step bucket nlen H st i)) <= f_size (fst st)).
+Proof. exact limit_within_file. Qed.
+Print Assumptions C04_limit_within_file.
+
 (* the caller's mapping: t_map0 is the mapping the process held when it called
    newCounter (its other goroutines' counters point into it).  No step inside
    a call replaces it: it changes only in a step in which a call returns (the
